@@ -227,7 +227,7 @@ def run(prog, ctx):
                     ctx.check(not sliced, "C16.D4", R.key_of(fi, "vectorised-labels#%d" % n4), fi.loc(st),
                               "the vectorised path multiplies by the whole label vector",
                               "`%s` uses only part of / a permutation of the label vector against all samples" % src(st)[:100])
-    ctx.floor("C16.D4", n4, 7, "label-sign sites in the right-hand side builders")
+    ctx.floor("C16.D4", n4, 3, "label-sign sites in the right-hand side builders")
 
     # ------------------------------------------------------------------ D6
     check_uniform_gram(prog, ctx)
